@@ -420,4 +420,35 @@ def feed (A : AeadFns) (r : Rx) (bs : Bytes) : Rx :=
   let r := { r with buf := r.buf ++ bs }
   drain A (r.buf.length / 48 + 1) r
 
+/-! ## UDP Associate Encapsulation: marker 0x00 | data length 2 | data | marker 0xff -/
+
+def assocWrap (d : Bytes) : Bytes := 0x00 :: (be 2 d.length ++ (d ++ [0xff]))
+
+inductive AssocParse where
+  | need
+  | bad
+  | ok (d : Bytes) (rest : Bytes)
+deriving DecidableEq
+
+/-- take one encapsulated packet from the front of a stream -/
+def assocUnwrap (bs : Bytes) : AssocParse :=
+  match bs with
+  | [] => .need
+  | m :: r =>
+    if m ≠ 0x00 then .bad else
+    if r.length < 2 then .need else
+    let n := fromBE (r.take 2)
+    let r2 := r.drop 2
+    if r2.length < n + 1 then .need else
+    if (r2.drop n).head? = some 0xff then .ok (r2.take n) (r2.drop (n + 1)) else .bad
+
+/-- all complete packets at the front of a stream; `none` = a marker is wrong -/
+def assocUnwrapAll : Nat → Bytes → List Bytes → Option (List Bytes × Bytes)
+  | 0, bs, acc => some (acc.reverse, bs)
+  | fuel + 1, bs, acc =>
+    match assocUnwrap bs with
+    | .need => some (acc.reverse, bs)
+    | .bad => none
+    | .ok d rest => assocUnwrapAll fuel rest (d :: acc)
+
 end Mieru.Spec
